@@ -108,7 +108,7 @@ def checkCore (D : Nat) (x0 lb ub plb pub : List Ext) : Except Err Norm :=
   else if anyB (plb.map (fun e => !e.isFinite)) || anyB (pub.map (fun e => !e.isFinite)) then .error .plausibleNotFinite
   else if anyB (zip4 (fun l u p q => Ext.eq l u && Ext.eq u p && Ext.eq p q) lb ub plb pub) then .error .fixedVariable
   else if anyB (zip2 Ext.eq plb pub) then .error .plausibleEqual
-  else if anyB (zip2 Ext.lt x0 lb) || anyB (zip2 (fun x u => Ext.lt u x) x0 ub) then .error .x0Outside
+  else if anyB (zip2 Ext.lt x0 lb) || anyB (zip2 (fun x u => Ext.lt u x) x0 ub) || anyB (x0.map (·.isInf)) then .error .x0Outside
   else if anyB (zip2 (fun a b => Ext.le b a) (map2 effLo lb ub) (map2 effHi lb ub)) then .error .boundsTooClose
   else if anyB ((zip4 ordOK lb plb pub ub).map (!·)) then .error .order1
   else if anyB ((zip4 ordOK lb (adjust x0 lb ub plb pub).2.1 (adjust x0 lb ub plb pub).2.2 ub).map (!·)) then .error .order2
@@ -149,7 +149,7 @@ open Bads (Ext)
     expression), and bounded on both sides or on none. -/
 def coordValid (x0 lb ub plb pub : Ext) : Bool :=
   plb.isFinite && pub.isFinite && Ext.lt plb pub && Ext.le lb plb && Ext.le pub ub &&
-  (x0.isNan || (Ext.le lb x0 && Ext.le x0 ub)) &&
+  (x0.isNan || (x0.isFinite && Ext.le lb x0 && Ext.le x0 ub)) &&        -- a start coordinate, where given, is a number inside the hard bounds
   Ext.lt (effLo lb ub) (effHi lb ub) &&
   ((lb.isFinite && ub.isFinite) || (lb.isInf && ub.isInf))
 
@@ -158,7 +158,7 @@ def zip5 (f : Ext → Ext → Ext → Ext → Ext → Bool) : List Ext → List 
   | _, _, _, _, _ => []
 
 /-- `some true` valid, `some false` invalid, `none` unspecified by the property (a start point with
-    some but not all coordinates NaN). -/
+    some but not all coordinates NaN in a definition that is otherwise valid, its given coordinates inside the hard bounds). -/
 def specValid (r : Raw) : Option Bool :=
   match prepare r with
   | none => some false                      -- no way to infer the dimension
@@ -167,7 +167,8 @@ def specValid (r : Raw) : Option Bool :=
     if lb.length != D || ub.length != D || plb.length != D || pub.length != D then some false
     else
       let nNan := (x0.filter (·.isNan)).length
-      if 0 < nNan && nNan < D then none
-      else some ((zip5 coordValid x0 lb ub plb pub).all id)
+      let allOK := (zip5 coordValid x0 lb ub plb pub).all id        -- a NaN coordinate of x0 counts as "not given" there
+      if 0 < nNan && nNan < D then (if allOK then none else some false)    -- a coordinate-wise invalidity stays one whatever the rest of x0 is
+      else some allOK
 
 end Bads.Val
